@@ -1202,7 +1202,9 @@ class MyPyAstVisitor:
                     if self.mypy_file is None:  # pragma: no cover
                         raise TypeError("Expected mypy_file (module information), got None.")
 
-                    if self.mypy_file.fullname in type_path:
+                    # The path has to be the module itself or lie in it, a module "pkg.ab" is not part of "pkg.a"
+                    module_fullname = self.mypy_file.fullname
+                    if type_path == module_fullname or type_path.startswith(f"{module_fullname}."):
                         qname = alias_qname
                         break
 
